@@ -347,22 +347,27 @@ class Response:
         may not read every valid HTTP response properly.  Responses
         must have a ``Content-Length``."""
         headerlist = []
-        status = fp.readline().strip()
+        status = fp.readline()
         is_text = isinstance(status, str)
 
+        # only ASCII whitespace is stripped, for text files too: str.strip()
+        # would also eat e.g. a no-break space that is part of a header value
         if is_text:
             _colon = ":"
             _http = "HTTP/"
+            _ws = " \t\n\r\x0b\x0c"
         else:
             _colon = b":"
             _http = b"HTTP/"
+            _ws = b" \t\n\r\x0b\x0c"
+        status = status.strip(_ws)
 
         if status.startswith(_http):
             (http_ver, status_num, status_text) = status.split(None, 2)
             status = f"{text_(status_num)} {text_(status_text)}"
 
         while 1:
-            line = fp.readline().strip()
+            line = fp.readline().strip(_ws)
 
             if not line:
                 # end of headers
@@ -372,7 +377,7 @@ class Response:
                 header_name, value = line.split(_colon, 1)
             except ValueError:
                 raise ValueError("Bad header line: %r" % line)
-            value = value.strip()
+            value = value.strip(_ws)
             headerlist.append((text_(header_name, "latin-1"), text_(value, "latin-1")))
         r = cls(status=status, headerlist=headerlist, app_iter=())
         body = fp.read(r.content_length or 0)
